@@ -337,8 +337,10 @@ def gen_graph(rng, family, n, style="frontend"):
 
 # ---------------------------------------------------------------- building
 
-def build_scfg(desc):
-    """Build a fresh SCFG (fresh NameGenerator) from a description."""
+def build_scfg(desc, prior=0):
+    """Build a fresh SCFG from a description.  prior = number of other (small)
+    graphs the same NameGenerator has served before: the graph's top-level
+    region is then not the generator's first meta region."""
     from numba_scfg.core.datastructures.scfg import SCFG, NameGenerator
     from numba_scfg.core.datastructures.basic_block import (
         BasicBlock, PythonBytecodeBlock)
@@ -351,7 +353,11 @@ def build_scfg(desc):
         else:
             graph[name] = BasicBlock(name=name, _jump_targets=tuple(tg),
                                      backedges=())
-    return SCFG(graph, name_gen=NameGenerator())
+    name_gen = NameGenerator()
+    for k in range(prior):
+        other = SCFG({"p%d" % k: BasicBlock(name="p%d" % k, _jump_targets=(), backedges=())}, name_gen=name_gen)
+        del other
+    return SCFG(graph, name_gen=name_gen)
 
 
 def describe_scfg(scfg):
